@@ -836,6 +836,39 @@ class Walk:
     def h(self):
         return self.rng.choice(self.s.handles)
 
+    def late_ack(self):
+        """the broker answers an operation whose future the application has dropped (it cannot know)"""
+        rng, s = self.rng, self.s
+        cands = [d for d in getattr(self, 'dropped', []) if d.get('pid') and not d.get('refused') and not d.get('answered')]
+        if not cands:
+            return False
+        d = rng.choice(cands)
+        pid = d['pid']
+        if d['kind'] == 'publish' and d['qos'] == 1:
+            s.feed(m.ack('puback', pid, rng.choice([None, 0, 0x10, 0x80])))
+            d['answered'] = True
+            self.outstanding -= 1
+        elif d['kind'] == 'publish' and d['qos'] == 2:
+            if d['phase'] == 0:
+                r = rng.choice([0, 0, 0x80])
+                s.feed(m.ack('pubrec', pid, r or None))
+                if r >= 0x80:
+                    self.outstanding -= 1
+                d['answered'] = True          # (a successful PUBREC for a dropped future: known finding K1, nothing follows)
+            else:
+                s.feed(m.ack('pubcomp', pid))
+                d['answered'] = True
+                self.outstanding -= 1
+        elif d['kind'] == 'subscribe':
+            s.feed(m.suback(pid, [0]))
+            d['answered'] = True
+        elif d['kind'] == 'unsubscribe':
+            s.feed(m.unsuback(pid, [0]))
+            d['answered'] = True
+        else:
+            return False
+        return True
+
     def pending_acks(self):
         """list of (op, kind, pid) that a conformant broker may send now"""
         out = []
@@ -907,6 +940,8 @@ class Walk:
         elif k == 'ping':
             s.ping(self.h())
         elif k == 'ack':
+            if self.allow_drop and rng.random() < 0.35 and self.late_ack():
+                return
             pa = self.pending_acks()
             if not pa:
                 return
@@ -1306,17 +1341,28 @@ def burst_scripts(prefix, tier):
     """a backlog of N messages in one stream, forwarded by the context before the consumer is polled (one read holding N
     PUBLISH packets), consumed back to back; then two more messages one at a time. N around powers of two and small counts."""
     out = []
-    ns = [2, 3, 7, 8, 9, 15, 16, 17, 18, 31, 32, 33, 34, 63, 64, 65, 100]
+    ns = [2, 3, 7, 8, 9, 15, 16, 17, 18, 31, 32, 33, 34, 63, 64, 65, 66, 100, 127, 128, 129, 130, 131, 200, 300]
     if tier != 'quick':
         ns += [127, 128, 129, 255, 256, 257, 300, 511, 512, 513, 1023, 1024, 1025, 1100]
     for n in ns:
         for qos in ([0] if tier == 'quick' and n > 40 else [0, 1]):
-            s = Sess(f'{prefix}-burst-{n}-q{qos}')
+          for late in ([False, True] if n in (66, 130, 300) else [False]):
+            s = Sess(f'{prefix}-burst-{n}-q{qos}' + ('-late' if late else ''))
             s.connect()
-            op, sid = s.subscribed_stream()
+            if late:
+                # the backlog builds up before the application even calls stream() — and while it waits for a ping
+                op, pid0, sid = s.subscribe()
+                s.feed(m.suback(pid0, [0]))
+                s.live_ops.pop(op, None)
+                s.ping()
+            else:
+                op, sid = s.subscribed_stream()
             data = b''.join(m.publish(b'a', bytes([j % 256, j // 256]), qos, (j % 60000) + 1 if qos else None, 0, 0, [(11, sid)])
                             for j in range(n))
             s.feed(data)
+            if late:
+                s.feed(m.pingresp())
+                s.add(f'STREAM {op}')
             s.feed(m.publish(b'a', b'tail1', 0, None, 0, 0, [(11, sid)]))
             s.feed(m.publish(b'a', b'tail2', 0, None, 0, 0, [(11, sid)]))
             out.append(s.script())
@@ -1324,7 +1370,18 @@ def burst_scripts(prefix, tier):
 
 
 def fam_C08(rng, tier):
-    return fam_walk(rng, tier, 'c08-walk', 80 if tier == 'quick' else 2500, lambda r: r.choice([15, 40, 100]),
+    out = []
+    for M in [1, 2, 3, 4, 5]:
+        s = Sess(f'c08-tinymax-{M}')
+        s.connect(connack_ps=[(39, M)])
+        s.feed(m.publish(b'a', b'x', 1, 7, 0, 0, []))
+        s.feed(m.publish(b'a', b'y', 0, None, 0, 0, []))
+        s.feed(m.publish(b'a', b'z', 2, 9, 0, 0, []))
+        s.feed(m.publish(b'a', b'x', 1, 7, 1, 0, []))
+        s.feed(m.ack('pubrel', 9))
+        s.feed(m.publish(b'a', b'w', 1, 65535, 0, 0, []))
+        out.append(s.script())
+    return out + fam_walk(rng, tier, 'c08-walk', 80 if tier == 'quick' else 2500, lambda r: r.choice([15, 40, 100]),
                     weights=dict(pub0=1, pub1=1, pub2=1, sub=2, unsub=0, ping=1, ack=3, inbound=12, pubrel=5, stream=2),
                     subid_modes=['reg', 'unreg', 'absent', 'absent', 'multi'], allow_drop=True, batch=0.08)
 
@@ -1444,6 +1501,32 @@ def fam_C10(rng, tier):
                 s.publish(2)                      # accepted again
                 s.publish(1)                      # refused again
                 out.append(s.script())
+    # a CANCELLED publish keeps its slot until the broker's (late) acknowledgement, which frees it
+    for R in [1, 2]:
+        for qos, phase in [(1, 0), (2, 1), (2, 0)]:
+            for reason in ([0] if phase else [0, 0x80] if qos == 2 else [0, 0x97]):
+                s = Sess(f'c10-cancel-{i}')
+                i += 1
+                s.connect(connack_ps=[(33, R)])
+                ops = [s.publish(qos, topic=b'a') for _ in range(R)]
+                o, p = ops[0]
+                if qos == 2 and phase == 1:
+                    s.feed(m.ack('pubrec', p))
+                s.add(f'DROP op{o}')
+                s.live_ops.pop(o, None)
+                s.publish(1, topic=b'a')                                    # still R outstanding: refused
+                if qos == 1:
+                    s.feed(m.ack('puback', p, reason or None))
+                elif phase == 1:
+                    s.feed(m.ack('pubcomp', p))
+                else:
+                    s.feed(m.ack('pubrec', p, reason or None))              # 0: K1 (slot stays); 0x80: slot freed
+                s.publish(1, topic=b'a')
+                s.publish(1, topic=b'a')
+                out.append(s.script())
+    out += fam_walk(rng, tier, 'c10-drops', 25 if q else 600, lambda r: r.choice([30, 80]), recv_max=lambda r: r.choice([1, 2, 3]),
+                    weights=dict(pub0=1, pub1=6, pub2=6, sub=0, unsub=0, ping=0, ack=9, inbound=0, pubrel=0, stream=0),
+                    allow_drop=True, batch=0.1)
     # a publish refused for its SIZE takes no slot: k oversized QoS>0 publishes, then the quota is still R
     for R in [1, 2, 3]:
         for k in [1, 2, 4]:
@@ -2168,6 +2251,26 @@ def fam_C17(rng, tier):
             s.add('DROPFUT')
             s.add('SNAP')
             out.append(s.script())
+    # the server's answer decides: CONNECT asks for `req`, CONNACK grants `got`, the client is back after `ago` seconds
+    for req, got, ago in [(10, 3600, 100), (None, 3600, 100), (3600, 10, 100), (10, None, 100), (10, 3600, 5), (3600, 10, 5),
+                          (0, 60, 30), (60, 0, 30), (10, 4294967295, 1000000)]:
+        s = Sess(f'c17-granted-{req}-{got}-{ago}')
+        s.connect([('cid', b'c')] + ([('sei', req)] if req is not None else []), connack_ps=[(17, got)] if got is not None else [])
+        s.publish(1, fields=[('p', b'one')])
+        o2, p2 = s.publish(2, fields=[('p', b'two')])
+        s.feed(m.ack('pubrec', p2))
+        s.add('FEEDEOF')
+        s.add('SNAP')
+        s.add(f'MARKDISC {ago}')
+        s.add('SETUP')
+        s.add('CONNECT ' + m.kvs([('cid', b'c')] + ([('sei', req)] if req is not None else [])))
+        s.feed(m.connack(1, 0, [(17, got)] if got is not None else []))
+        s.add('RUN')
+        s.feed(m.ack('puback', 1))
+        s.feed(m.ack('pubcomp', p2))
+        s.add('DROPFUT')
+        s.add('SNAP')
+        out.append(s.script())
     # random histories (acknowledgements in any order the broker may choose, cancelled operations, batched requests, both
     # handshakes), then the connection is lost and the session resumed or expired; twice
     for j in range(40 if tier == 'quick' else 1500):
@@ -2205,7 +2308,7 @@ def with_common(fam, prefix, **kw):
 
 FAMILIES = {
     'C01': fam_C01, 'C02': fam_C02, 'C03': fam_C03,
-    'C04': with_common(fam_C04, 'c04'), 'C05': with_common(fam_C05, 'c05'), 'C06': with_common(fam_C06, 'c06'),
+    'C04': with_common(lambda rng, tier: fam_C04(rng, tier) + burst_scripts('c04', tier), 'c04'), 'C05': with_common(fam_C05, 'c05'), 'C06': with_common(fam_C06, 'c06'),
     'C07': with_common(fam_C07, 'c07'), 'C08': with_common(fam_C08, 'c08'), 'C09': with_common(fam_C09, 'c09'),
     'C10': with_common(fam_C10, 'c10'), 'C11': with_common(fam_C11, 'c11', n_quick=15, n_thorough=300),
     'C12': with_common(fam_C12, 'c12'), 'C13': with_common(fam_C13, 'c13'),
